@@ -88,6 +88,16 @@ def modules_for(tier_, seed_):
     return mods
 
 
+def rejected_by_name(out):
+    """(methods, types) the tool refuses by name: lowering errors, and a back end's "Found usage of disabled type"
+    diagnostics (the item uses a type its author disabled for that back end)."""
+    dm = set(re.findall(r"Lowering error in (\w+)::(\w+):", out))
+    dt = set(re.findall(r"Lowering error in (\w+):(?!:)", out))
+    dm |= set(re.findall(r"(?m)^\s+(\w+)::(\w+): Found usage of disabled type", out))
+    dt |= set(re.findall(r"(?m)^\s+(\w+): Found usage of disabled type", out))
+    return dm, dt
+
+
 class StaticFinding:
     """A declaration-level disagreement (no values involved): reported like a failed harness."""
 
@@ -119,8 +129,7 @@ def prepare_module(mod, steps):
     while not ok and not isinstance(mod, RawModule) and attempts < 4:
         # The properties quantify over modules the tool *accepts*: what lowering rejects by name is dropped (and listed in
         # evidence), so that a tightened acceptance rule does not turn into an alarm here (acceptance itself is C05's subject).
-        dm = set(re.findall(r"Lowering error in (\w+)::(\w+):", out))
-        dt = set(re.findall(r"Lowering error in (\w+):(?!:)", out))
+        dm, dt = rejected_by_name(out)
         if not dm and not dt:
             break
         fitted_out += sorted("%s::%s" % x for x in dm) + sorted(dt)
@@ -182,8 +191,7 @@ def prepare_dialect(mod, which):
         ok, out = run_tool(spec["backend"], lib, os.path.join(d, which), spec["extra"])
         if ok:
             break
-        dm = set(re.findall(r"Lowering error in (\w+)::(\w+):", out))
-        dt = set(re.findall(r"Lowering error in (\w+):(?!:)", out))
+        dm, dt = rejected_by_name(out)
         if not dm and not dt:
             raise RuntimeError("diplomat-tool %s crashed on generated module %s: %s" % (which, cur.name, out[-1200:]))
         fitted_out += sorted("%s::%s" % x for x in dm) + sorted(dt)
